@@ -513,6 +513,18 @@ def run(ctx):
             ctx.guard("mustset", T + "::seek", lambda: check_seek(ctx, P, T))
         ctx.guard("new-offset", T, lambda: check_new(ctx, P, T))
         ctx.guard("process-order", T, lambda: check_process(ctx, P, T))
+    # process_mut itself, by bounded shape evaluation (every offset; boundary lengths, all lengths in the thorough tier)
+    from . import streamshape
+    nss = []
+    ctx.guard("shape-eval", "process_mut", lambda: nss.append(streamshape.check_process_mut(ctx, P, [c[0] for c in CIPHERS], thorough=ctx.tier == "thorough")))
+    ctx.check(nss == [5], "floor", "shape-eval", "process_mut of all five ciphers decided by shape evaluation", "only %s of five process_mut functions decided by shape evaluation" % nss, key="floor:shape-eval")
+    # the sibling comparison is a cross-check only: where a type's own rules (update-order, process-order) all hold, a
+    # textual difference from the reference copy is a refactoring, not a defect
+    for T, _, _ in CIPHERS:
+        own = [v for v in ctx.violations if v["rule"] in ("update-order", "process-order", "guard", "mustset", "new-offset") and (v["instance"].startswith(T + ":") or v["instance"] == T)]
+        if not own:
+            ctx.subsume("sibling:%s::update" % T, "update-order holds for %s on its own" % T)
+            ctx.subsume("sibling:%s::process" % T, "process-order holds for %s on its own" % T)
     ctx.guard("sibling", "ciphers", lambda: check_siblings(ctx, P))
     # seek / block stepping are only as good as the engine's counter operations: set_counter, increment and the 64-bit
     # carry of the engine actually built (value-graph rule shared with C03)
